@@ -224,9 +224,21 @@ pub fn run(ctx: &'static Ctx) {
 
     // ---- E3c: long slices (an implementation that sums a slice in a wider integer and folds it back must fold correctly)
     let mut long: Vec<Vec<u8>> = vec![];
-    for len in [6usize, 16, 64, 127, 128, 129, 130, 131, 200, 255, 256, 257, 258, 300, 1000, 4096, 65_535, 65_536, 65_537, 100_000, 131_072, 131_073, 300_000] {
+    for len in [6usize, 16, 64, 127, 128, 129, 130, 131, 200, 255, 256, 257, 258, 300, 1000, 2400, 4096, 20_000, 65_535, 65_536, 65_537, 100_000, 131_072, 131_073, 300_000] {
         for pat in 0..6u8 {
             long.push((0..len).map(|i| match pat { 0 => 0xff, 1 => 0x80, 2 => 0x01, 3 => 0x7f, 4 => (i * 7 + 3) as u8, _ => if i % 2 == 0 { 0xff } else { 0x00 } }).collect());
+        }
+        // lane patterns: one byte position of every 2 / 3 / 4 / 8 / 16-byte group is heavy (0xff) and the others light, so
+        // that an implementation summing in packed lanes overflows one lane long before the others
+        if len >= 2000 && len <= 131_073 {
+            for stride in [2usize, 3, 4, 8, 16] {
+                for p in 0..stride {
+                    if stride == 16 && p % 3 != 0 {
+                        continue;
+                    }
+                    long.push((0..len).map(|i| if i % stride == p { 0xff } else { (i % 3) as u8 }).collect());
+                }
+            }
         }
         // irregular contents: every block of the slice has its own byte sum (regular fills and ramps sum to 0 mod 256 over
         // 64 KiB, which would hide a dropped or repeated block)
